@@ -172,15 +172,15 @@ package ro
 //@   ensures [initial-teardown-first|C03] teardown != nil ==> result.finalizers[0] == teardown
 
 //@ func (*subscriptionImpl).Add
-//@   props C03 C06 C14 C07 C05
+//@   props C03 C06 C14 C07 C05 C17
 //@   binds teardown
 //@   scope done finalizers mu s teardown varargs
 //@   panicforks
 //@   maypanic
 //@   track callfn.*
 //@   ensures [nil-is-noop|C03] teardown == nil ==> trace() && count(lock.mu) == 0
-//@   ensures [late-add-runs-now-once|C03,C14,C05] teardown != nil && atlock(done) ==> trace(callfn.teardown()) && len(atunlock(finalizers)) == len(atlock(finalizers))
-//@   ensures [open-add-appends|C03,C05] teardown != nil && !atlock(done) ==> trace() && len(atunlock(finalizers)) == len(atlock(finalizers)) + 1 && atunlock(finalizers)[len(atlock(finalizers))] == teardown
+//@   ensures [late-add-runs-now-once|C03,C14,C05,C17] teardown != nil && atlock(done) ==> trace(callfn.teardown()) && len(atunlock(finalizers)) == len(atlock(finalizers))
+//@   ensures [open-add-appends|C03,C05,C17] teardown != nil && !atlock(done) ==> trace() && len(atunlock(finalizers)) == len(atlock(finalizers)) + 1 && atunlock(finalizers)[len(atlock(finalizers))] == teardown
 //@   ensures [only-own-panic] panics ==> panicked(teardown)
 //@   ensures [a-late-teardown-runs-unlocked|C03,C06,C07] notheldat(mu, callfn.teardown)
 
@@ -195,13 +195,13 @@ package ro
 
 //@ func (*subscriptionImpl).Unsubscribe
 //@   note the finalizers run in registration order: Wait registers its wake-up last, so that a re-subscribing operator (C15) only starts the next attempt once the previous one has been torn down
-//@   props C03 C06 C14 C15
+//@   props C03 C06 C14 C15 C17
 //@   maypanic
 //@   track call.execFinalizer loop.* callfn.*
 //@   ensures [closes|C03,C06] atunlock(done) == true
 //@   ensures [second-call-is-noop|C03] atlock(done) ==> trace()
 //@   ensures [batch-taken-once|C03] !atlock(done) ==> len(atunlock(finalizers)) == 0
-//@   ensures [runs-whole-batch|C03,C14,C15] !atlock(done) && len(atlock(finalizers)) > 0 ==> trace(loop.L0)
+//@   ensures [runs-whole-batch|C03,C14,C15,C17] !atlock(done) && len(atlock(finalizers)) > 0 ==> trace(loop.L0)
 //@   ensures [finalizers-run-unlocked|C03,C06] notheldat(mu, loop.L0)
 //@   ensures [panic-only-after-all-ran|C03] panics ==> called(loop.L0)
 
@@ -226,12 +226,12 @@ package ro
 //@   ensures [reads-done-under-lock|C06] result == atlock(done)
 
 //@ func (*subscriptionImpl).Wait
-//@   props C06 C15
+//@   props C06 C15 C17
 //@   binds s
 //@   scope ch done finalizers mu s
 //@   maypanic
 //@   track chmake chrecv.* chclose.* chsend.* call.*
-//@   ensures [waits-for-own-finalizer|C06,C15] trace(chmake(1), call.subscriptionImpl.Add(s, _), chrecv.ch, chclose.ch)
+//@   ensures [waits-for-own-finalizer|C06,C15,C17] trace(chmake(1), call.subscriptionImpl.Add(s, _), chrecv.ch, chclose.ch)
 
 //@ func (*subscriptionImpl).Wait$1
 //@   props C06
